@@ -26,7 +26,7 @@ INCOMING_FIXTURES = ["message_text", "message_media_contact", "message_media_dow
                      "notification_contact_add", "notification_contact_remove", "notification_contact_update", "call", "dirty_ib", "offline_iq",
                      "success", "failure"]
 INCOMING_HAND = ["groups_add", "groups_remove", "groups_subject", "groups_create", "contacts_sync", "account_ib", "stream_error", "stream_features",
-                 "sticker_message", "document_message"]
+                 "sticker_message", "document_message", "receipt_list"]
 
 
 def incoming_kinds():
@@ -171,8 +171,14 @@ def check_incoming(acc, kit, name, cls, tree, sel, with_enc, w):
         ta, pa = c09.split_proto(tree)
         try:
             tb, pb = c09.split_proto(treeeq.to_tuple(e.toProtocolTreeNode()))
+            # an application reads an entity as often as it likes: a second reading must give the same
+            tb2, pb2 = c09.split_proto(treeeq.to_tuple(e.toProtocolTreeNode()))
         except Exception as ex:  # noqa
             acc.violation("incoming-entity-unserialisable:%s" % name, "delivered entity cannot be serialised: %r" % (ex,), w)
+            return
+        d2 = treeeq.diff(tb, tb2)
+        if d2:
+            acc.violation("incoming-entity-unstable:%s" % name, "reading the delivered entity a second time gives something else: %s" % d2, w)
             return
         d = treeeq.diff(ta, tb, by_value=True)
         if not d:
